@@ -82,6 +82,12 @@ def run(chk, repo, tier):
     from .c06 import product_rules
     product_rules(chk, repo, 'C03-k')
     helper_rules(Remap(chk, {'C20-d': 'C03-h'}), repo)
+    # the tilt each segment carries travels with its field through every product (a shared list would hand one segment's
+    # tilt to another), and the FFT branch adds the segment fields in a zeroed region that is the one transformed
+    chk.clause('C03-p', 'segment tilts stay with their own field through products; the FFT branch sums the segment fields in one zeroed region', 3)
+    from . import common as _common, c09 as _c09
+    _common.mul_concat(chk, repo, 'C03-p')
+    _c09.run(Remap(chk, {'C09-d': 'C03-p', 'C09-f': 'C03-p'}), repo, tier)
 
     from .extra_rules import plane_slice_rule
     plane_slice_rule(chk, repo, 'C03-i')
